@@ -637,10 +637,22 @@ mod detail {
         ops: &[FlatOp<T>],
         nodes: &[FlatNode<T>],
     ) -> ExprIdxVec {
+        // Applying a commutative operator between two numbers earlier than its left neighbors
+        // is only valid if the operator it overtakes is the same operator.
+        let overtakes_only_same_op = |bin_op_idx: usize| {
+            let bin_op = &ops[bin_op_idx].bin_op;
+            ops[..bin_op_idx]
+                .iter()
+                .rev()
+                .find(|left| left.bin_op.op.prio <= bin_op.op.prio)
+                .map(|left| left.bin_op.op.prio < bin_op.op.prio || left.bin_op.idx == bin_op.idx)
+                .unwrap_or(true)
+        };
         let prio_increase =
             |bin_op_idx: usize| match (&nodes[bin_op_idx].kind, &nodes[bin_op_idx + 1].kind) {
                 (FlatNodeKind::Num(_), FlatNodeKind::Num(_))
-                    if ops[bin_op_idx].bin_op.op.is_commutative =>
+                    if ops[bin_op_idx].bin_op.op.is_commutative
+                        && overtakes_only_same_op(bin_op_idx) =>
                 {
                     let prio_inc = 5;
                     &ops[bin_op_idx].bin_op.op.prio * 10 + prio_inc
